@@ -546,8 +546,12 @@ def run(rep, tier):
         line_specs += [(6, 9, 3, "int", "int"), (7, 8, 4, "int", "int"), (5, 3, 3, "int", "int"), (9, 9, 5, "int", "int"), (8, 8, 2, "txt", "txt")]
     specs += [("lines", s) for s in line_specs]
     specs += [("file", 0), ("dssr", "lw"), ("dssr", "names"), ("dssr", "stacks")]
-    with multiprocessing.get_context("fork").Pool(min(ncpu(), len(specs))) as pool:
-        results = pool.map(_dispatch, specs, chunksize=1)
+    from vlib.par import pmap, Crashed
+    results = pmap(_dispatch, specs)
+    for k, r in enumerate(results):
+        if isinstance(r, Crashed):
+            rep.harness_error(f"job {r.item} crashed: {r.why}")
+            results[k] = {"name": str(r.item), "paths": 0, "queries": 0, "solver_s": 0.0, "verdicts": [], "unknown": 0, "wall_s": 0, "reach_listed": 1, "reach": 1, "reached": 1, "missing_classes": []}
     for (kind, sp), r in zip(specs, results):
         rep.add(states=r["paths"], transitions=r["queries"], solver_s=r["solver_s"])
         rep.cov.setdefault("groups", []).append({k: r.get(k) for k in ("name", "paths", "queries", "unknown", "wall_s")})
